@@ -170,3 +170,8 @@ Theorem C01_default_list_invalid :
   snd (build_val leaf lvalidate lto_python ldefault l_callable lflag (vrun []) w0 (ex_dflt_node [PDict 0 [(PStr (sa "n"), PInt 99)]])) = VLeaf default_failed /\ snd (build_val leaf lvalidate lto_python ldefault l_callable lflag (vrun []) w0 (ex_dflt_node [PDict 0 [(PStr (sa "zz"), PInt 1)]])) = VLeaf default_failed /\ ~ ok_fields leaf lvalidate lto_python ldefault l_callable lflag (vrun []) [(sa "items", ex_dflt_node [PDict 0 [(PStr (sa "n"), PInt 99)]])].
 Proof. exact default_list_invalid. Qed.
 Print Assumptions C01_default_list_invalid.
+
+Theorem C01_cfg_at_wf :
+  forall (F : Type) (lmeets : F -> pyval -> Prop) (sp : list pstep) (fs : list (str * node F)) (c src : icfg), wf_cfg F lmeets fs c -> cfg_at F sp c fs = Some src -> exists sfs : list (str * node F), fields_at F sp fs = Some sfs /\ wf_cfg F lmeets sfs src.
+Proof. exact cfg_at_wf. Qed.
+Print Assumptions C01_cfg_at_wf.
